@@ -684,9 +684,9 @@ def gen_model(rng, *, stratum: str):
             case["compartments"] = [["compartment", size]]
         elif opt == "refid":
             # a compartment called like the species reference the exporter invents for a computed coefficient
-            # (`<species>ref`): the reference names avoid the component names only (finding F-C08-19)
+            # (`<species>ref`): the reference names avoid the compartment ids too (F-C08-19, repaired)
             case["compartments"] = [[f"{computed_on[0]}ref", size]]
-            case["finding"] = "F-C08-19"
+            case["refid"] = True
         elif opt == "id":
             case["compartments"] = [[rng.choice(["c", "cell", "cytosol"]), size]]
         elif opt == "two":
@@ -1185,8 +1185,8 @@ def judge_case(ctx, case, R, M):
     }
     kinds["all"] = kinds["static"] + kinds["dynamic"]
     small = {k: case.get(k) for k in ("kind", "model", "states", "must_raise", "finding", "floaty", "source", "prev",
-                                       "compartments", "options", "refuse", "exact_init")
-             if k not in ("compartments", "options", "refuse", "exact_init") or case.get(k) is not None}
+                                       "compartments", "options", "refuse", "exact_init", "refid")
+             if k not in ("compartments", "options", "refuse", "exact_init", "refid") or case.get(k) is not None}
     r_exp = "error" if "err" in R["export"] else "ok"
     m_exp = None if M is None else ("error" if "err" in M["export"] else "ok")
     if M is not None and bool(M["unsupported"]) != bool(case["must_raise"]):
@@ -1239,9 +1239,11 @@ def judge_case(ctx, case, R, M):
     # 2. structure of the written document
     if M is not None:
         # `exportModel` (what the round-trip theorems speak about) is the component part of `writeModel`
-        if m_exp == "ok" and ("ok" not in M["export_plain"] or any(
-                M["export_plain"]["ok"][k] != M["export"]["ok"][k] for k in M["export_plain"]["ok"])):
-            ctx.add_drift(small, M["export"], M["export_plain"], "writeModel and exportModel differ on the components")
+        # (`export_from`: with the names `_create_sbml_reactions` starts from; `export_plain` = `exportModel m`, the same
+        #  unless a compartment is called like a species reference — option `refid`)
+        for key in ("export_from",) + (() if case.get("refid") else ("export_plain",)):
+            if m_exp == "ok" and ("ok" not in M[key] or any(M[key]["ok"][k] != M["export"]["ok"][k] for k in M[key]["ok"])):
+                ctx.add_drift(small, M["export"], M[key], f"writeModel and {key} differ on the components")
         if m_exp == "error":
             ctx.add_drift(small, "export ok", M["export"], "model predicts an export error")
         else:
@@ -1290,7 +1292,7 @@ def judge_case(ctx, case, R, M):
     for k, v in stats.items():
         ctx.hist[f"numbers {k}"] = ctx.hist.get(f"numbers {k}", 0) + v
     fid = case["finding"]
-    if fid in ("F-C08-9", "F-C08-17", "F-C08-18", "F-C08-19"):
+    if fid in ("F-C08-9", "F-C08-17", "F-C08-18"):
         Mv = None  # pysbml refuses booleans as numbers / reuses a component's name; the model does not predict the third party
     ctx.judge(small, Rv, S, Mv, finding=fid, what="export -> import changes names, initial values, derived values, fluxes or derivatives")
 
@@ -1397,7 +1399,7 @@ def shrink(ctx, viol, budget: int = 40):
                 break
             spent += 1
             try:
-                c2 = prepare({k: cand.get(k) for k in ("kind", "model", "states", "must_raise", "finding", "floaty", "prev", "compartments", "options", "refuse", "exact_init")})
+                c2 = prepare({k: cand.get(k) for k in ("kind", "model", "states", "must_raise", "finding", "floaty", "prev", "compartments", "options", "refuse", "exact_init", "refid")})
                 (R, M), = evaluate(ctx, [c2])
                 probe = Ctx(ctx.prop, ctx.tier, ctx.seed)
                 probe.known, probe.fixed = ctx.known, ctx.fixed
@@ -1500,7 +1502,7 @@ def run(ctx):
 
 def replay(ctx, rp):
     case = rp["case"]
-    case = prepare({k: case.get(k) for k in ("kind", "model", "states", "must_raise", "finding", "floaty", "prev", "compartments", "options", "refuse", "exact_init")})
+    case = prepare({k: case.get(k) for k in ("kind", "model", "states", "must_raise", "finding", "floaty", "prev", "compartments", "options", "refuse", "exact_init", "refid")})
     (R, M), = evaluate(ctx, [case])
     print(case["source"])
     print("R =", json.dumps(R, indent=1)[:4000])
